@@ -18,7 +18,7 @@ pub fn main(args: &[String]) {
     std::env::set_current_dir(&root).unwrap();
     let nprog = if thorough { corp.len() } else { 220 };
     let per = if thorough { 40 } else { 8 };
-    let mut jobs: Vec<(String, usize, u8, bool, String)> = vec![];  // (text, position, kind 0=insert 1=delete, via include, deleted text)
+    let mut jobs: Vec<(String, usize, u8, u8, String)> = vec![];  // (text, position, kind 0=insert 1=delete, via include, deleted text)
     for p in 0..nprog {
         let it = if thorough { &corp[p] } else { rng.pick(&corp) };
         // token offsets refer to the preprocessed text: use programs on which preprocessing is the identity
@@ -29,12 +29,12 @@ pub fn main(args: &[String]) {
         if elig.is_empty() { continue; }
         for _ in 0..per {
             let t = rng.pick(&elig);
-            jobs.push((it.text.clone(), t.off, 0, rng.chance(1, 3), String::new()));
+            jobs.push((it.text.clone(), t.off, 0, [0u8, 0, 0, 1, 1, 2, 2, 3][rng.below(8)], String::new()));
         }
         // deletions: one bracket or block-closing keyword
         let closers = ["(", ")", "[", "]", "{", "}", "end", "endmodule", "endcase", "endfunction", "endtask", "endgenerate", "endclass", "endinterface", "endpackage", "endprogram", "begin"];
         let dels: Vec<&toks::Tok> = tk.iter().filter(|t| !t.in_directive && closers.contains(&&it.text[t.off..t.off + t.len])).collect();
-        for _ in 0..(per / 2).max(1) { if dels.is_empty() { break; } let t = rng.pick(&dels); jobs.push((it.text.clone(), t.off, 1, false, it.text[t.off..t.off + t.len].to_string())); }
+        for _ in 0..(per / 2).max(1) { if dels.is_empty() { break; } let t = rng.pick(&dels); jobs.push((it.text.clone(), t.off, 1, 0, it.text[t.off..t.off + t.len].to_string())); }
     }
     let jobs = std::sync::Arc::new(jobs);
     let j2 = jobs.clone();
@@ -44,12 +44,22 @@ pub fn main(args: &[String]) {
             if *kind == 0 {
                 let b = if i % 2 == 0 { '\u{1}' } else { '\u{7f}' };
                 let mut t2 = text.clone(); t2.insert(*pos, b);
-                let (res, fname, shift) = if *via {
+                let (res, fname, shift) = if *via == 1 {
                     let f = format!("inc{}.sv", i); std::fs::write(&f, &t2).unwrap();
                     let top = format!("// top\n`include \"{}\"\n", f);
                     (parse_top(&top, "top.sv"), f, 0usize)
+                } else if *via >= 2 {
+                    // the fault is in the including file, after an `include of a harmless header; via == 2: the header is exactly as long as the
+                    // offset at which the `include directive ends, so the source offsets of the header's text and of the text that follows the
+                    // directive run on without a gap (an origin table that compares offsets only would attribute the fault to the header)
+                    let h = format!("h{}.svh", i);
+                    let prefix = format!("`include \"{}\"", h);
+                    let e = prefix.len() + if *via == 3 { 3 } else { 0 };
+                    std::fs::write(&h, format!("/*{}*/\n", "-".repeat(e - 5))).unwrap();
+                    let top = format!("{}\n{}", prefix, t2);
+                    (parse_top(&top, "top.sv"), "top.sv".to_string(), prefix.len() + 1)
                 } else { (parse_top(&t2, "t.sv"), "t.sv".to_string(), 0usize) };
-                let _ = shift;
+                let pos = &(*pos + shift);
                 match res {
                     Ok(_) => Err(format!("byte {:?} inserted at offset {} but the source is still accepted", b, pos)),
                     Err(Error::Parse(Some((p, o)))) => {
@@ -71,7 +81,7 @@ pub fn main(args: &[String]) {
         }));
         match r { Ok(x) => x, Err(e) => Err(format!("panic: {}", util::panic_msg(e))) }
     });
-    let mut rep = Report::new("accepted directive-free corpus programs x (a) byte 0x01 / 0x7f inserted at the start of an eligible token (not inside a directive, not glued to an escaped identifier), directly or inside an included file; (b) one bracket / begin / block-closing keyword deleted; non-trivial = every mutant; distinct by (text, position, kind)");
+    let mut rep = Report::new("accepted directive-free corpus programs x (a) byte 0x01 / 0x7f inserted at the start of an eligible token (not inside a directive, not glued to an escaped identifier), directly, inside an included file, or in the including file after an `include of a header whose length equals the offset at which the directive ends (source offsets run on across the file boundary); (b) one bracket / begin / block-closing keyword deleted; non-trivial = every mutant; distinct by (text, position, kind)");
     // preprocessor-level faults
     for (t, fault) in [("module m;\n\"unterminated\n", 10usize), ("a /* open\n", 2), ("x \\\n", 2), ("ok\n`define\n", 3), ("`ifdef\n", 0)] {
         let d = no_defines(); let i = no_includes();
@@ -85,7 +95,7 @@ pub fn main(args: &[String]) {
     for ((text, pos, kind, via, del), r) in jobs.iter().zip(results.into_iter()) {
         let key = format!("{}{}{}{}", text, pos, kind, via);
         rep.case(key.as_bytes(), true);
-        rep.count(if *kind == 0 { if *via { "insert-in-include" } else { "insert" } } else { "delete" });
+        rep.count(if *kind == 0 { ["insert", "insert-in-include", "insert-after-aligned-include", "insert-after-include"][*via as usize] } else { "delete" });
         if let Err(m) = r {
             // deletion mutants may stay valid programs (e.g. redundant parentheses): those are generator artefacts, not violations
             if *kind == 1 && m.contains("still accepted") { rep.count("delete-still-valid(skipped)"); continue; }
